@@ -1084,6 +1084,8 @@ class Verifier(Calls):
                 gv = VList(T[1], z3.Int('G.' + gk))
                 st.assume(AND(self.list_len(st, gv) >= 0,
                               z3.Select(self.harr(st, LIST_ETYPE, IntS), gv.t) == __import__('pyvc.engine', fromlist=['etype_id']).etype_id(T[1])))
+            if T[0] == 'ref':
+                st.assume(self.class_is(st, z3.Int('G.' + gk), T[1]))
             for inv in invs:
                 st.assume(self.eval_spec(st, inv, gfr, assume=True))
         for g, (T, init) in c.ghost.items():
